@@ -87,6 +87,18 @@ func (r *Run) ObPath(rule, construct, pos string, ok bool, detail string, path [
 	r.add(Obligation{Rule: rule, Construct: construct, Pos: pos, OK: ok, Nontrivial: true, Detail: detail, Path: path})
 }
 
+// Info records an observation that is reported (stderr, evidence "informational") but
+// decides nothing: used for comparisons that are worth a reader's look yet would also
+// differ after a behaviour-preserving rewrite, so they must not fail a run.
+func (r *Run) Info(rule, construct, pos string, same bool, detail string) {
+	list, _ := r.Extra["informational"].([]map[string]any)
+	list = append(list, map[string]any{"rule": rule, "construct": construct, "pos": pos, "agrees": same, "detail": detail})
+	r.Extra["informational"] = list
+	if !same {
+		fmt.Fprintf(os.Stderr, "NOTE property=%s rule=%s %s at %s: %s\n", r.Prop, rule, construct, pos, detail)
+	}
+}
+
 // Undecide records that the machinery could not decide something (unresolved anchor,
 // unknown idiom). The run then exits 2: broken, never "held".
 func (r *Run) Undecide(format string, a ...any) {
